@@ -245,10 +245,28 @@ def ast_well_formed(rec):
         if n["k"] in ("ref", "neg"):
             return False
         if n["k"] not in ("var", "str"):
-            keys = [("leaf", a["id"]) if a["k"] in ("var", "str") else ("node", json.dumps(a, sort_keys=True)) for a in n["args"]]
+            keys = [shape_key(a) for a in n["args"]]
             if len(keys) != len(set(keys)):
-                return False
+                return False          # the same argument written twice (possibly with its own arguments in another order)
     return True
+
+
+def shape_key(a):
+    """two arguments with the same key are the same formula for the library (same id): order-insensitive, and
+    All/Any/AtLeast/AtMost are told apart only by (value, sign as passed)"""
+    if a["k"] in ("var", "str"):
+        return ("leaf", a["id"])
+    if a.get("id"):
+        return ("id", a["id"])
+    ch = tuple(sorted(map(repr, (shape_key(x) for x in a["args"]))))
+    k = a["k"]
+    n = len(a["args"])
+    norm = {"All": ("AL", n, "None"), "Any": ("AL", 1, "None")}.get(k)
+    if k == "AtLeast":
+        norm = ("AL", a["value"], str(a.get("sign")))
+    elif k == "AtMost":
+        norm = ("AL", -a["value"], "-1")
+    return (norm or k, ch)
 
 
 def install(ctx):
